@@ -237,10 +237,16 @@ PWait ==
 \* flush(): Lock granted
 PFLock ==
     /\ pc["p"] = "flock" /\ mux = "none"
-    /\ IF closed \/ wl = <<>>
-         THEN pc' = [pc EXCEPT !["p"] = AfterFlushPc] /\ UNCHANGED mux
-         ELSE pc' = [pc EXCEPT !["p"] = "fsys"] /\ mux' = "p"
-    /\ UNCHANGED <<wl, left, wadded, closed, intable, reg, dis, rdy, nospace, kfill, inq, fdclosed, cur, done, pev,
+    /\ IF closed
+         THEN pc' = [pc EXCEPT !["p"] = AfterFlushPc] /\ UNCHANGED <<mux, wadded>>
+         ELSE IF wl = <<>>
+           THEN IF wadded          \* nothing to flush: resetRead() drops the writing event (repaired code)
+                  THEN /\ wadded' = FALSE
+                       /\ IF ModIsSyscall THEN pc' = [pc EXCEPT !["p"] = "fctl"] /\ mux' = "p"
+                                          ELSE pc' = [pc EXCEPT !["p"] = AfterFlushPc] /\ UNCHANGED mux
+                  ELSE pc' = [pc EXCEPT !["p"] = AfterFlushPc] /\ UNCHANGED <<mux, wadded>>
+           ELSE pc' = [pc EXCEPT !["p"] = "fsys"] /\ mux' = "p" /\ UNCHANGED wadded
+    /\ UNCHANGED <<wl, left, closed, intable, reg, dis, rdy, nospace, kfill, inq, fdclosed, cur, done, pev,
                    rdcnt, peek, sent, acc, handed, lost, ovf>>
 
 \* one write syscall of flush and what follows up to the next syscall
